@@ -10,7 +10,7 @@ SPECS = {
     "RSI": [dict(period=2), dict(period=3)],
     "MACD": [dict(fast_period=2, slow_period=3, signal_period=2), dict(fast_period=3, slow_period=2, signal_period=3)],
     "ROC": [dict(period=2), dict(period=3)],
-    "STOCH": [dict(period=2, slow_period=2, smoothing_k=2), dict(period=3, slow_period=2, smoothing_k=2), dict(period=2, slow_period=3, smoothing_k=2)],
+    "STOCH": [dict(period=2, slow_period=3, smoothing_k=2), dict(period=3, slow_period=2, smoothing_k=1), dict(period=2, slow_period=2, smoothing_k=2)],   # %K and %D smoothing differ
     "TSI": [dict(period=2, smooth_period=2), dict(period=2), dict(period=3)],
     "aroon": [dict(period=2), dict(period=3)],
     "ADX": [dict(period=2), dict(period=2, period_signal=3)],
@@ -95,7 +95,7 @@ def run_adx(ctx, P):
 
 
 META = dict(
-    bounds=dict(quick="smallest legal periods (2,3; MACD 2/3/2 and swapped 3/2/3; STOCH 2/2/2, 3/2/2), n = warm-up+2..4 candles (ADX, Aroon warm-up+2)",
+    bounds=dict(quick="smallest legal periods (2,3; MACD 2/3/2 and swapped 3/2/3; STOCH 2/3/2 and 3/2/1 (slow != smoothing)), n = warm-up+2..4 candles (ADX, Aroon warm-up+2)",
                 thorough="adds TSI 3, STOCH 2/3/2, ADX 2/3; n = warm-up+3..6"),
     stubs=["float arithmetic -> exact real arithmetic (nonlinear: z3 nlsat on the fresh-solver tier)", "round(x, 10) -> identity", "max/min/abs -> If-terms"],
     assumptions=["denominators are assumed non-zero here (zero cases are C09's and return documented limit values)", "volume > 0 for VWAP", "deviation must exceed 1e-6*(1+|ref|) and reproduce on the real code"],
